@@ -62,6 +62,15 @@ def rv(c):
 
 
 POLY_NORMALISE = True
+EXACT_TRIG = {}        # concrete angle (float) -> (cos, sin) as exact rational strings: Pythagorean rotations stay rational
+
+
+def register_exact_angle(theta, cos_str, sin_str):
+    """the concrete angle theta (a float, e.g. atan2(7, 24)) has exactly this rational cosine / sine over the reals"""
+    neg = sin_str[1:] if sin_str.startswith('-') else '-' + sin_str
+    EXACT_TRIG[float(theta)] = (cos_str, sin_str)
+    EXACT_TRIG[-float(theta)] = (cos_str, neg)
+
 SHARE_ATOMS = os.environ.get('SYMOPT_SHARE_ATOMS', '0') == '1'
 
 
@@ -764,12 +773,14 @@ class SV:
 
     def cos(self):
         if not self.sym:
-            return SV(math.cos(self.c))
+            ex = EXACT_TRIG.get(float(self.c))
+            return SV(t=z3.RealVal(ex[0])) if ex else SV(math.cos(self.c))
         return self._trig()[0]
 
     def sin(self):
         if not self.sym:
-            return SV(math.sin(self.c))
+            ex = EXACT_TRIG.get(float(self.c))
+            return SV(t=z3.RealVal(ex[1])) if ex else SV(math.sin(self.c))
         return self._trig()[1]
 
     def tan(self):
